@@ -49,8 +49,7 @@ def validate(c, pid, trace_path, what):
         seg = segment(evs, at)
         rp = c.replay_file("trace_%s_segment.ndjson" % what, "\n".join(json.dumps(x) for x in seg) + "\n")
         bad = evs[at - 1]
-        nested = any('"w": 7' in json.dumps(x) or '"w": 8' in json.dumps(x) for x in seg)
-        key = "nested-wrapper" if (pid == "C05" and nested) else "trace"
+        key = "trace"
         c.violation(key, "event #%d (%s) of a recorded execution is not allowed by the specification under acceptor %s: %s" % (
             at, bad.get("ev"), pid, json.dumps({k: v for k, v in bad.items() if k not in ("types", "info")})[:300]), rp)
         return False
@@ -106,6 +105,12 @@ def run(pid, tier, replay=None):
         cases = T.corpus(c, thorough, thorough)
         tr2 = T.observe(c, cases, 70, 0, limit=None if thorough else 8)
         T.validate(c, "C05", tr2)
+    if pid == "C11":
+        # (iii) on real built-in types: each corpus program registers its expressions in three orders
+        from checks import texprcommon as T
+        cases = T.corpus(c, thorough, thorough)
+        tr3 = T.observe(c, cases, 70, 0, limit=None if thorough else 8)
+        T.validate(c, "C11", tr3)
     if pid == "C01":
         from checks import c10
         c10.legs(c, "C01", tier)        # producer 3: retain on a well-formed registry
